@@ -167,6 +167,7 @@ static void run_config(int c, int depth, int n)
 	setenv("EXINIT", "se wa", 1);	/* filters are refused on a modified buffer unless writeany is set */
 	snprintf(cfg_name, sizeof(cfg_name), "buf%d", c);
 	nx_bound = depth;
+	snprintf(nx_cfg_args, sizeof(nx_cfg_args), "cfg=%d", c);
 	nx_run(3, argv);
 	nv_stat("configurations", 1);
 	nx_report();
